@@ -5,7 +5,8 @@
 #define VERIF_HOOKS_H
 #ifdef ASSEMBLYLINE_VERIF
 struct al_verif_hooks {
-  // kind 0: instruction written, kind 1: nop padding written
+  // kind 0: instruction written, kind 1: nop padding written,
+  // kind 2: trial write of an instruction before the chunk-fitting decision
   void (*emit)(const void *al, unsigned pos, unsigned len, int cap, int kind);
   // internal buffer resized
   void (*grow)(const void *al, int old_len, int new_len, int moved);
